@@ -1244,10 +1244,10 @@ theorem elab_ksFrom (env : Env) (kbs : List KeyBlobDef) (hev : ∀ e v, Spec.eva
       · simp at hc
 
 
-theorem crypto_ok {kbs : List KeyBlobDef} {i st en : Int} {key ctr : String} {swap : Bool} (kind : String) (d : Dict) (addr : Int)
-    (input : String) (hd : d.get? "keyblob_id" = some (.i i)) (haddr : Spec.isAddr addr = true)
+theorem crypto_ok {kbs : List KeyBlobDef} {i st en : Int} {key ctr : String} {swap : Bool} (kind : String) (useSwap : Bool) (d : Dict)
+    (addr : Int) (input : String) (hd : d.get? "keyblob_id" = some (.i i)) (haddr : Spec.isAddr addr = true)
     (h : Spec.keyblobOf kbs i = some (st, en, key, ctr, swap)) :
-    cryptoCmd kind kbs d addr input = .ok (.loadCrypto kind addr st en key ctr input false) := by
+    cryptoCmd kind useSwap kbs d addr input = .ok (.loadCrypto kind addr st en key ctr input (useSwap && swap)) := by
   unfold Spec.keyblobOf at h
   split at h
   · next k hk =>
@@ -1255,12 +1255,23 @@ theorem crypto_ok {kbs : List KeyBlobDef} {i st en : Int} {key ctr : String} {sw
     · next vs ve vk vc hs he hkey hctr =>
       split at h
       · next hhex =>
-        have hst : st = vs ∧ en = ve ∧ key = vk ∧ ctr = vc := by
-          split at h <;> simp at h <;> simp [h]
-        obtain ⟨rfl, rfl, rfl, rfl⟩ := hst
         simp only [Bool.and_eq_true] at hhex
-        simp [cryptoCmd, hd, lookupKeyblob, hk, hs, he, hkey, hctr, bind, Except.bind, pure, Except.pure, valueToInt, strOf, hhex.1, hhex.2,
-          checkAddr_ok haddr]
+        split at h
+        · next hb =>
+          split at h
+          · simp at h
+          · next hbs =>
+            simp at h
+            obtain ⟨rfl, rfl, rfl, rfl, rfl⟩ := h
+            have hbs' : k.content.get? "byte_swap" = none := by simpa using hbs
+            simp [cryptoCmd, hd, lookupKeyblob, hk, hs, he, hkey, hctr, bind, Except.bind, pure, Except.pure, valueToInt, strOf, hhex.1,
+              hhex.2, checkAddr_ok haddr, hb, hbs', valueToBool]
+        · next v hb =>
+          simp at h
+          obtain ⟨rfl, rfl, rfl, rfl, rfl⟩ := h
+          simp [cryptoCmd, hd, lookupKeyblob, hk, hs, he, hkey, hctr, bind, Except.bind, pure, Except.pure, valueToInt, strOf, hhex.1,
+            hhex.2, checkAddr_ok haddr, hb, valueToBool]
+        · simp at h
       · simp at h
     · simp at h
   · simp at h
@@ -1276,7 +1287,8 @@ theorem elab_keywrap (env : Env) (kbs : List KeyBlobDef) (hev : ∀ e v, Spec.ev
     simp at hc; subst hc
     simp [elabStmt, stmtDict, intOf_evalE hev hi, intOf_evalE hev ha, bind, Except.bind, pure, Except.pure, cmdOfDict, Dict.get?,
       valueToInt, strOf, DVal.ofVal]
-    exact crypto_ok "keywrap" _ a blob (by simp [Dict.get?]) haddr hkb
+    have := crypto_ok "keywrap" false _ a blob (by simp [Dict.get?] : Dict.get? [("keyblob_id", DVal.i i), ("address", DVal.i a), ("values", DVal.s blob)] "keyblob_id" = some (.i i)) haddr hkb
+    simpa using this
   · simp at hc
 
 
@@ -1307,7 +1319,7 @@ theorem fileOf_ok {env : Env} {d : LoadData} {bs : List UInt8} (h : Spec.fileOf 
 
 set_option maxHeartbeats 400000 in
 theorem elab_encrypt (env : Env) (kbs : List KeyBlobDef) (hev : ∀ e v, Spec.eval env.vars e = .ok v → eval env.vars e = .ok v) (c : Cmd)
-    (id : Expr) (opt : MemOpt) (d : LoadData) (t : Target) (hsw : Spec.isSwappedEncrypt env kbs (.encrypt id opt d t) = false)
+    (id : Expr) (opt : MemOpt) (d : LoadData) (t : Target)
     (h : Spec.cmdOf env kbs (.encrypt id opt d t) = some c) :
     elabStmt env kbs (.encrypt id opt d t) = .ok c := by
   cases t with
@@ -1315,8 +1327,6 @@ theorem elab_encrypt (env : Env) (kbs : List KeyBlobDef) (hev : ∀ e v, Spec.ev
   | addr ea =>
     simp only [Spec.cmdOf, Option.bind_eq_bind, Option.bind_eq_some_iff] at h
     obtain ⟨i, hi, m, hm, a, ha, bs, hbs, ⟨st, en, key, ctr, swap⟩, hkb, hc⟩ := h
-    have hswap : swap = false := by simpa [Spec.isSwappedEncrypt, hi, hkb] using hsw
-    subst hswap
     by_cases haddr : Spec.isAddr a = true
     case neg => simp [haddr] at hc
     simp [haddr] at hc; subst hc
@@ -1325,13 +1335,15 @@ theorem elab_encrypt (env : Env) (kbs : List KeyBlobDef) (hev : ∀ e v, Spec.ev
     · simp [elabStmt, stmtDict, loadStmtDict, intOf_evalE hev hi, hd, hdd, targetDict_addr hev ha, bind, Except.bind, pure, Except.pure,
         cmdOfDict, Dict.get?, Dict.update, valueToInt, DVal.ofVal, hp, hq]
       simp only [Spec.hexOfBytes, List.append_assoc]
-      apply crypto_ok _ _ _ _ _ haddr hkb
-      simp [Dict.get?]
+      refine Eq.trans (crypto_ok "encrypt" true _ a _ ?_ haddr hkb) ?_
+      · simp [Dict.get?]
+      · simp
     · simp [elabStmt, stmtDict, loadStmtDict, intOf_evalE hev hi, hd, hdd, targetDict_addr hev ha, bind, Except.bind, pure, Except.pure,
         cmdOfDict, Dict.get?, Dict.update, valueToInt, DVal.ofVal, hp, hq]
       simp only [Spec.hexOfBytes, List.append_assoc]
-      apply crypto_ok _ _ _ _ _ haddr hkb
-      simp [Dict.get?]
+      refine Eq.trans (crypto_ok "encrypt" true _ a _ ?_ haddr hkb) ?_
+      · simp [Dict.get?]
+      · simp
 
 
 set_option maxHeartbeats 400000 in
@@ -1833,11 +1845,42 @@ theorem elab_load_blob_prog (env : Env) (kbs : List KeyBlobDef) (hev : ∀ e v, 
           · simp at hc
 
 
-/-- every supported statement becomes exactly the command the Spec states — except the forms of the four open findings:
-    a plain blob load, an 8-byte fuse blob starting with a zero word, `call`/`reset`, `encrypt` with a byte-swapping key blob -/
+set_option maxHeartbeats 400000 in
+theorem elab_call_reset (env : Env) (kbs : List KeyBlobDef) (hev : ∀ e v, Spec.eval env.vars e = .ok v → eval env.vars e = .ok v) (c : Cmd) :
+    (∀ tgt arg, Spec.cmdOf env kbs (.call tgt arg) = some c → elabStmt env kbs (.call tgt arg) = .ok c) ∧
+    (Spec.cmdOf env kbs .reset = some c → elabStmt env kbs .reset = .ok c) := by
+  refine ⟨?_, ?_⟩
+  · intro tgt arg h
+    simp only [Spec.cmdOf, Option.bind_eq_bind, Option.bind_eq_some_iff] at h
+    obtain ⟨a, ha, x, hx, hc⟩ := h
+    split at hc
+    · next hcond =>
+      simp only [Bool.and_eq_true] at hcond
+      have haddr := hcond.1
+      simp at hc; subst hc
+      cases arg with
+      | none =>
+        simp at hx; subst hx
+        simp [elabStmt, stmtDict, intOf_evalE hev ha, bind, Except.bind, pure, Except.pure, cmdOfDict, Dict.get?, DVal.ofVal,
+          callArgDict, Dict.update, valueToInt, checkAddr_ok haddr]
+      | empty =>
+        simp at hx; subst hx
+        simp [elabStmt, stmtDict, intOf_evalE hev ha, bind, Except.bind, pure, Except.pure, cmdOfDict, Dict.get?, DVal.ofVal,
+          callArgDict, Dict.update, valueToInt, checkAddr_ok haddr]
+      | arg e =>
+        simp at hx
+        simp [elabStmt, stmtDict, intOf_evalE hev ha, intOf_evalE hev hx, bind, Except.bind, pure, Except.pure, cmdOfDict, Dict.get?,
+          DVal.ofVal, callArgDict, Dict.update, valueToInt, checkAddr_ok haddr]
+    · simp at hc
+  · intro h
+    simp [Spec.cmdOf] at h
+    subst h
+    simp [elabStmt, stmtDict, bind, Except.bind, cmdOfDict]
+
+/-- every supported statement becomes exactly the command the Spec states — except the forms of the two open findings:
+    a plain blob load, an 8-byte fuse blob starting with a zero word -/
 theorem elab_one_cmd_except (env : Env) (kbs : List KeyBlobDef) (hev : ∀ e v, Spec.eval env.vars e = .ok v → eval env.vars e = .ok v)
     (s : Stmt) (c : Cmd) (h1 : Spec.isPlainBlobLoad env s = false) (h1b : Spec.isProgBlobLeadingZeros env s = false)
-    (h2 : Spec.isCallOrReset s = false) (h3 : Spec.isSwappedEncrypt env kbs s = false)
     (h : Spec.cmdOf env kbs s = some c) : elabStmt env kbs s = .ok c := by
   cases s with
   | load opt d t =>
@@ -1850,15 +1893,15 @@ theorem elab_one_cmd_except (env : Env) (kbs : List KeyBlobDef) (hev : ∀ e v, 
   | eraseAll opt => exact elab_eraseAll env kbs hev c opt h
   | eraseUnsecureAll => exact (elab_simple env kbs hev c).2.2.2 h
   | enable opt e => exact elab_enable env kbs hev c opt e h
-  | call tgt a => simp [Spec.isCallOrReset] at h2
+  | call tgt a => exact (elab_call_reset env kbs hev c).1 tgt a h
   | jump tgt a => exact (elab_simple env kbs hev c).2.1 tgt a h
   | jumpSp sp tgt a => exact (elab_simple env kbs hev c).2.2.1 sp tgt a h
-  | reset => simp [Spec.isCallOrReset] at h2
+  | reset => exact (elab_call_reset env kbs hev c).2 h
   | versionCheck nsec e => exact (elab_simple env kbs hev c).1 nsec e h
   | keystoreToNv opt t => exact elab_ksTo env kbs hev c opt t h
   | keystoreFromNv opt t => exact elab_ksFrom env kbs hev c opt t h
   | keywrap id blob addr => exact elab_keywrap env kbs hev c id blob addr h
-  | encrypt id opt d t => exact elab_encrypt env kbs hev c id opt d t h3 h
+  | encrypt id opt d t => exact elab_encrypt env kbs hev c id opt d t h
   | unsupported k => simp [Spec.cmdOf] at h
 
 theorem mapM_some_length {α β : Type} (f : α → Option β) : ∀ (l : List α) (r : List β), l.mapM f = some r → r.length = l.length := by
